@@ -39,6 +39,10 @@ def shards(tier, seed):
 	if tier == 'thorough':
 		for i in range(8):
 			out.append(dict(name=f'rand-index-{i}', kind='randindex', sub=i, n=400))
+	for s_ in out:
+		if s_.get('kind') in ['index', 'hist'] and not s_.get('sanitizer'):
+			s_['contracts'] = ['C20']
+	out.append(dict(name='suite-contracts', kind='suite-contracts', which=['C20'], tests=['tests/sigs', 'tests/util']))
 	return out
 
 
